@@ -7,7 +7,7 @@ from . import register
 from .common import fold
 
 MC_INV = ("TypeOK C04_RangeReadable C04_LiveReadable C04_HeadTopOfRun C04_HeightIsHead C08_GoneForGood "
-          "C08_Pointers C06_DiskPointers C06_DiskTail PendImpliesInit")
+          "C08_Pointers C06_DiskPointers C06_DiskTail PendImpliesInit C06_ContinuationAdvances")
 MC_PROPS = "C08_RejectsOthers C08_OutsideUntouched C08_PointersAfter C14_CallsMatchGone C14_FailureKeeps C06_CleanRestartSame"
 
 
@@ -20,7 +20,7 @@ def cfg_text(n, b, maxops, maxbatch, ctx, faults, crashes, known, export, props=
          " Ctx = %s" % ("TRUE" if ctx else "FALSE"), " Faults = %s" % ("TRUE" if faults else "FALSE"),
          " Crashes = %s" % ("TRUE" if crashes else "FALSE"),
          " Known = {%s}" % ", ".join('"%s"' % k for k in known),
-         "INIT Init", "NEXT Next", "VIEW view", "INVARIANTS " + MC_INV, "CHECK_DEADLOCK FALSE"]
+         "INIT Init", "NEXT Next", "VIEW " + ("view" if export else "viewD"), "INVARIANTS " + MC_INV, "CHECK_DEADLOCK FALSE"]
     if export:
         t.append("CONSTRAINT ExportEdge")
     elif props:
@@ -122,7 +122,32 @@ def replay_and_judge(run, cases, crash, prefixes, shards=8):
     return results
 
 
-def family(run, prefixes, faults, crash):
+def parallel_scenarios(rnd, count):
+    """Hand-built scenarios for the parallel delete path (not modelled deterministically in Store.tla: worker
+    interleaving decides which headers above a failing one are already gone): store 1..M flushed, parallel
+    tail-side deletion with handler failures at one or two heights, parallel retry, restart.  Judged by the
+    C08/C14 clauses of StoreTrace.tla only."""
+    def op(**kw):
+        d = {"op": "none", "b": [], "from": 0, "to": 0, "failAt": 0, "res": "ok", "calls": [], "gone": [], "kind": "", "ws": []}
+        d.update(kw)
+        return {"op": d, "proj": {}, "live": [], "deleted": []}
+    out = []
+    for i in range(count):
+        m = rnd.randint(5, 9)
+        to = rnd.randint(3, m + 1)
+        fails = sorted(rnd.sample(range(1, to), min(rnd.choice((1, 2, 2)), to - 1)))
+        hist = [op(op="append", b=list(range(1, m + 1))), op(op="sync"),
+                op(op="delete", **{"from": 1, "to": to, "failAt": fails[0], "failSet": fails, "par": True, "kind": "tail"})]
+        # retry from wherever the tail ended up is expressed as a second delete with from=0 meaning "current tail"
+        hist.append(op(op="delete", **{"from": -1, "to": to, "par": True, "kind": "tail"}))
+        if rnd.random() < 0.5:
+            hist += [op(op="stop"), op(op="start")]
+        out.append({"k": "STORE", "n": m, "bsz": rnd.choice((1, 2, 64)), "ctx": rnd.random() < 0.5, "hist": hist, "variant": "free"})
+    return out
+
+
+def family(run, prefixes, faults, crash, variants=None):
+    variants = variants or {}
     quick = run.tier == "quick"
     rnd = random.Random(vlib.seed())
     known = known_tags(run.pid)
@@ -147,7 +172,7 @@ def family(run, prefixes, faults, crash):
     for b in (1, 2, 3):
         for ctx in (False, True):
             res = run_tlc_cfg(run, "ex_b%d_%s" % (b, "ctx" if ctx else "plain"),
-                              cfg_text(n_ex, b, ops_ex, 2, ctx, faults, False, known, export=True), True, workers=4)
+                              cfg_text(n_ex, b, ops_ex, 2, ctx, faults, False, known, export=True), True, workers=1)
             vlib.require_tlc_ok(res, "Store.tla export B=%d ctx=%s" % (b, ctx))
             run.add_tlc("Store.tla export N=%d B=%d MaxOps=%d ctx=%s" % (n_ex, b, ops_ex, ctx), res)
             cases.extend(res.exported)
@@ -161,6 +186,29 @@ def family(run, prefixes, faults, crash):
         f = frac_rej if is_rejected_delete(c) else frac_other
         if f >= 1.0 or rnd.random() < f:
             keep.append(c)
+    # replay variants: the same behaviour driven differently (see harness/storeh variant)
+    extra = []
+    for c in keep:
+        ops = [h["op"] for h in c["hist"]]
+        lastop = ops[-1]
+        if variants.get("nowait") and any(ops[i]["op"] == "append" and ops[i + 1]["op"] == "delete" for i in range(len(ops) - 1)):
+            if rnd.random() < variants["nowait"]:
+                extra.append(dict(c, variant="nowait"))
+        if variants.get("parallel") and lastop["op"] == "delete" and lastop["kind"] in ("wipe", "tail", "head") \
+                and lastop["to"] - lastop["from"] >= 2 and rnd.random() < variants["parallel"]:
+            extra.append(dict(c, variant="parallel"))
+        if variants.get("wfail"):
+            # N consecutive failing writes placed on the commit of the last op, or of the Stop that precedes a final Start
+            js = [j for j in (len(ops) - 1, len(ops) - 2) if j >= 0 and ops[j]["op"] in ("append", "sync", "stop") and ops[j]["ws"]
+                  and (j == len(ops) - 1 or ops[-1]["op"] == "start")]
+            for j in js:
+                if rnd.random() < variants["wfail"]:
+                    for nfail in (1, 2, 3):
+                        extra.append(dict(c, variant="wfail:%d:%d" % (j, nfail)))
+    if variants.get("parscen"):
+        extra.extend(parallel_scenarios(rnd, variants["parscen"]))
+    run.cov["variant_runs"] = dict(collections.Counter(e["variant"].split(":")[0] for e in extra))
+    keep = keep + extra
     run.cov["edges_exported"] = total_edges
     run.cov["edges_replayed"] = len(keep)
     run.cov["exhaustive"] = (len(keep) == total_edges)
@@ -184,19 +232,21 @@ def family(run, prefixes, faults, crash):
 
 @register("C04")
 def c04(run):
-    family(run, ["C04_"], faults=False, crash=False)
+    family(run, ["C04_"], faults=False, crash=False, variants={"nowait": 0.3})
 
 
 @register("C08")
 def c08(run):
-    family(run, ["C08_"], faults=True, crash=False)
+    family(run, ["C08_", "C06_clean_restart"], faults=True, crash=False,
+           variants={"nowait": 1.0, "parallel": 0.5 if run.tier == "quick" else 1.0, "parscen": 150 if run.tier == "quick" else 1500})
 
 
 @register("C14")
 def c14(run):
-    family(run, ["C14_"], faults=True, crash=False)
+    family(run, ["C14_"], faults=True, crash=False, variants={"parallel": 1.0, "parscen": 300 if run.tier == "quick" else 3000})
 
 
 @register("C06")
 def c06(run):
-    family(run, ["C06_", "C04_operation_failed"], faults=False, crash=True)
+    family(run, ["C06_", "C04_operation_failed", "C04_every_appended"], faults=False, crash=True,
+           variants={"wfail": 0.5 if run.tier == "quick" else 1.0})
